@@ -39,8 +39,8 @@ Definition is_ok {A} (r : res A) : bool := match r with Ok _ => true | _ => fals
 (* ---- tokens -------------------------------------------------------------- *)
 Fixpoint split_on (sep : N) (l cur : list N) : list (list N) :=
   match l with
-  | [] => [rev cur]
-  | c :: r => if c =? sep then rev cur :: split_on sep r [] else split_on sep r (c :: cur)
+  | [] => [rev_append cur []]
+  | c :: r => if c =? sep then rev_append cur [] :: split_on sep r [] else split_on sep r (c :: cur)
   end.
 Definition tokens (l : list N) : list (list N) :=
   filter (fun t => match t with [] => false | _ => true end) (split_on 32 l []).
